@@ -317,7 +317,9 @@ def op_src(op, i, cfg):
 
 
 WRITE_SRC = {0: "o[0] = 1.0", 1: "o.fmt = 'mjd'", 2: "o.jd1[...] = 1.0", 3: "o.val[...] = 1.0", 4: "o += 1.0",
-             5: "o.jd2 = o.jd1", 6: "del o.fmt", 7: "o.sort()", 8: "o.fill(1.0)"}
+             5: "o.jd2 = o.jd1", 6: "del o.fmt", 7: "o.sort()", 8: "o.fill(1.0)", 9: "o.jd2[...] = 1.0",
+             10: "o.jd1[...] += 0.25", 11: "o.jd2[...] += 0.25", 12: "np.asarray(o)[...] = 1.0",
+             13: "o.jd1[0] = 1.0 (o.jd1[()] for a 0-d jd)", 14: "np.copyto(o.jd2, 1.0)"}
 
 
 def do_write(o, w):
@@ -339,6 +341,18 @@ def do_write(o, w):
         o.sort()
     elif w == 8:
         o.fill(1.0)
+    elif w == 9:
+        o.jd2[...] = 1.0
+    elif w == 10:
+        o.jd1[...] += 0.25
+    elif w == 11:
+        o.jd2[...] += 0.25
+    elif w == 12:
+        np.asarray(o)[...] = 1.0
+    elif w == 13:
+        o.jd1[0 if np.ndim(o.jd1) else ()] = 1.0
+    elif w == 14:
+        np.copyto(o.jd2, 1.0)
     else:
         raise ValueError(w)
 
@@ -535,7 +549,7 @@ def random_op(rng, h, cfg):
         if c == "scale":
             return ("scale", k, rng.choice([scale, 1]) if scale == 0 else scale)
         if c == "write":
-            return ("write", k, rng.choice([1, 2, 3, 5]))
+            return ("write", k, rng.choice([1, 2, 3, 5, 9, 12, 13]))
         if c == "insb":
             # insert this scalar into an array of the same scale / format
             cands = [i for i in range(n) if not h.summary(i)[0] and h.summary(i)[2] == scale
@@ -573,7 +587,7 @@ def random_op(rng, h, cfg):
     if c == "scale":
         return ("scale", k, rng.choice([scale, 1]) if scale == 0 else scale)
     if c == "write":
-        return ("write", k, rng.choice([0, 1, 2, 3, 4, 5, 7, 8]))
+        return ("write", k, rng.choice([0, 1, 2, 2, 3, 4, 5, 7, 8, 9, 9, 10, 11, 12, 13, 14]))
     if c == "copy" and rng.random() < 0.5:
         return ("copy", k, "method")
     return (c, k)
@@ -864,36 +878,69 @@ def insert_cases(ctx):
     return cases, metas
 
 
+# every kind of derived object of the property: how it is obtained from a fresh root `t` of 3 epochs
+WRITE_TARGETS = [
+    ("root", "t", lambda t, cfg: t),
+    ("elem", "t[1]", lambda t, cfg: t[1]),
+    ("slice", "t[0:2]", lambda t, cfg: t[0:2]),
+    ("slice_step", "t[::-1]", lambda t, cfg: t[::-1]),
+    ("take_list", "t[[0, 2]]", lambda t, cfg: t[[0, 2]]),
+    ("take_array", "t[np.array([2, 0])]", lambda t, cfg: t[np.array([2, 0])]),
+    ("mask", "t[np.array([True, False, True])]", lambda t, cfg: t[np.array([True, False, True])]),
+    ("take_of_slice", "t[1:][[0]]", lambda t, cfg: t[1:][[0]]),
+    ("iter_elem", "list(t)[2]", lambda t, cfg: list(t)[2]),
+    ("view", "t.view()", lambda t, cfg: t.view()),
+    ("scale", "t.<other scale>", lambda t, cfg: getattr(t, cfg.scales[1])),
+    ("scale_of_take", "t[[0, 2]].<other scale>", lambda t, cfg: getattr(t[[0, 2]], cfg.scales[1])),
+    ("take_of_scale", "t.<other scale>[[0, 2]]", lambda t, cfg: getattr(t, cfg.scales[1])[[0, 2]]),
+    ("copy", "copy.copy(t)", lambda t, cfg: copy.copy(t)),
+    ("copy_of_mask", "copy.copy(t[mask])", lambda t, cfg: copy.copy(t[np.array([True, False, True])])),
+    ("deepcopy", "copy.deepcopy(t)", lambda t, cfg: copy.deepcopy(t)),
+    ("subset_mask", "t.subset(np.array([True, False, True]), {})", lambda t, cfg: t.subset(np.array([True, False, True]), {})),
+    ("subset_index", "t.subset([0, 2], {})", lambda t, cfg: t.subset([0, 2], {})),
+    ("subset_slice", "t.subset(slice(0, 2), {})", lambda t, cfg: t.subset(slice(0, 2), {})),
+    ("insert", "TimeArray.insert(t, 1, t, {})", None),
+    ("from_jds", "type(t).from_jds(t.jd1.copy(), t.jd2.copy(), t.fmt)", lambda t, cfg: type(t).from_jds(t.jd1.copy(), t.jd2.copy(), t.fmt)),
+]
+
+
 def write_cases(ctx):
+    """in-place write attempts (values, jd1, jd2, attributes) on every kind of derived object: each must raise and
+    leave the bits of the object and of the root it came from unchanged"""
+    from midgard.data._time import TimeArray
     cases, metas = [], []
-    for fmt in ("jd", "gps_ws"):
-        for target in ("root", "elem", "slice", "copy"):
+    for fmt in ("jd", "mjd", "gps_ws"):
+        for target, src, make in WRITE_TARGETS:
             for w in sorted(WRITE_SRC):
                 cfg = Cfg(3, fmt)
                 tok = Tok()
                 h = History(cfg, tok)
-                o = h.objs[0]
-                if target == "elem":
-                    o = o[1]
-                elif target == "slice":
-                    o = o[0:2]
-                elif target == "copy":
-                    o = copy.copy(o)
-                before = [observe(x, cfg, tok, der=False) for x in (h.objs[0], o)]
+                t = h.objs[0]
+                rep = dict(kind="write_attempt", root=cfg.how().replace("o0 =", "t ="), target=src.replace("<other scale>", cfg.scales[1]),
+                           attempt=WRITE_SRC[w].replace("o", "x", 1) if WRITE_SRC[w].startswith("o") else WRITE_SRC[w])
+                try:
+                    o = TimeArray.insert(t, 1, t, {}) if make is None else make(t, cfg)
+                    before = [observe(x, cfg, tok, der=False) for x in (t, o)]
+                    hash_before = hash(o)
+                except Exception as e:
+                    ctx.count(f"write:outside-model:{target}:{type(e).__name__}")
+                    continue
                 try:
                     do_write(o, w)
                     raised = False
                 except Exception:
                     raised = True
                 try:
-                    after = [observe(x, cfg, tok, der=False) for x in (h.objs[0], o)]
+                    after = [observe(x, cfg, tok, der=False) for x in (t, o)]
+                    changed = before != after or hash(o) != hash_before
                 except Exception as e:
                     after = f"broken: {type(e).__name__}: {e}"
-                cases.append(f"({w}, {emit.b(raised)}, {emit.b(before != after)})")
-                metas.append(dict(kind="write_attempt", root=cfg.how(), target=target, attempt=WRITE_SRC[w], raised=raised,
-                                  observables_changed=(before != after), after=str(after)[:300]))
+                    changed = True
+                cases.append(f"({w}, {emit.b(raised)}, {emit.b(changed)})")
+                metas.append(dict(rep, raised=raised, observables_or_hash_changed=changed, after=str(after)[:300]))
                 ctx.case(("W", fmt, target, w), nontrivial=True)
                 ctx.count(f"write:{w}")
+                ctx.count(f"write-target:{target}")
     return cases, metas
 
 
